@@ -1,4 +1,5 @@
 import Okane.Lemmas.Diag
+import Okane.Lemmas.C14TextSpans
 /-!
 # C14 — diagnostics name the right file and line
 
@@ -325,5 +326,221 @@ example : (parseErrorNew (parseErrorFuel sampleFile) sampleFile 21 sampleFile.le
 example : computeLineNumber sampleFile 60 = .panic "compute_line_number: assert pos <= s.len()" := by decide
 example : clip ⟨21, 52⟩ ⟨3, 10⟩ = .panic "clip: attempt to subtract with overflow" := by decide
 example : (PCtx.mk sampleFile ⟨3, 52⟩).asStr = .panic "ParsedContext::span must be a valid UTF-8 boundary" := by decide
+
+end Okane.Diag
+
+/-!
+# C14 for every text: the parser-side hypotheses discharged in the parser model
+
+`C14_syntax` and `C14_bookkeep` above take the facts the parser has to supply as hypotheses.  The theorems below
+discharge them **for every text** with the parser model (`Model/Parse.lean`, and `Model/ParseSpans.lean` for the
+`Tracking` decoration): `Lemmas/ParseTotal*.lean` (totality, spans, `ParseError::new`), `Lemmas/C14Text.lean` (where the
+iterator stands), `Lemmas/C14TextSpans.lean` (tracked spans).  What remains outside Lean is the correspondence of those
+models with the Rust parser (checked per case by the C05 / C06 / C14 streams).
+-/
+namespace Okane.Diag
+open Okane.Comb Okane.Parse
+
+/-- **C14_syntax_text.**  For *every* text `t` on which `parse_ledger` fails with the error `e`:
+
+* the text splits as `pre ++ rest`, `pre` ending with the last entry delivered before the error (empty when there was
+  none): that byte position `startPos` is where the iterator resumed (its checkpoint, taken *before* the separator);
+  the separator `vertical_spaces` succeeds on `rest` and leaves the non-empty `entryAt` — the first byte of the entry
+  that could not be parsed —, and `parse_ledger_entry` fails on it, leaving the stream at `pos`;
+* `startPos ≤ entryStart ≤ errPos ≤ |t|` for the byte positions of `rest`, `entryAt`, `pos`;
+* `e.line_start` is the line of `startPos`: one plus the line feeds before it (bytes, and characters of `pre`);
+* the error span `[e.offset, e.spanEnd)` is relative to `startPos`, starts exactly at `errPos`, ends inside the file; it
+  is the byte-level `ParseError::new` (no assertion fires, the boundary search ends), non-empty up to the next char
+  boundary unless parsing stopped at the end of the file, where it is empty;
+* the line shown for the error is the file's line of `errPos`; the first line of the bad entry lies between
+  `line_start` and it. -/
+theorem C14_syntax_text (t : List Char) (e : Parse.ParseErr) (h : Parse.parseLedger t = .err e) :
+    ∃ (pre rest entryAt pos : List Char),
+      t = pre ++ rest ∧ (encode pre).length = Parse.resumeAfter (Parse.parseLedgerRun t).1 ∧
+      Parse.verticalSpaces rest = .ok () entryAt ∧ entryAt ≠ [] ∧
+      (Parse.parseLedgerEntry entryAt = .bt pos ∨ Parse.parseLedgerEntry entryAt = .cut pos) ∧
+      ∃ (startPos entryStart errPos : Nat),
+        startPos = (encode pre).length ∧ entryStart = (encode t).length - (encode entryAt).length ∧
+        errPos = (encode t).length - (encode pos).length ∧
+        startPos ≤ entryStart ∧ entryStart ≤ errPos ∧ errPos ≤ (encode t).length ∧
+        e.lineStart = 1 + lfBefore (encode t) startPos ∧ e.lineStart = 1 + pre.count '\n' ∧
+        startPos + e.offset = errPos ∧ e.offset ≤ e.spanEnd ∧ startPos + e.spanEnd ≤ (encode t).length ∧
+        ∃ pe stopLine entryLine,
+          parseErrorNew (parseErrorFuel (encode t)) (encode t) startPos errPos = .ok pe ∧
+          pe.lineStart = e.lineStart ∧ pe.errorSpan = ⟨e.offset, e.spanEnd⟩ ∧ pe.input = encode rest ∧
+          (errPos < (encode t).length →
+            e.offset < e.spanEnd ∧ isCharBoundary (encode rest) e.spanEnd = true ∧
+            ∀ x, e.offset < x → x < e.spanEnd → isCharBoundary (encode rest) x = false) ∧
+          (errPos = (encode t).length → e.spanEnd = e.offset) ∧
+          computeLineNumber (encode t) errPos = .ok stopLine ∧
+          snippetLine e.lineStart (encode rest) e.offset = stopLine ∧
+          computeLineNumber (encode t) entryStart = .ok entryLine ∧
+          e.lineStart ≤ entryLine ∧ entryLine ≤ stopLine := by
+  obtain ⟨pre, rest, entryAt, pos, rfl, hres, hsep, hs1, hne, hp1, hfail, hnew⟩ := parseLedger_error_structure t e h
+  have hposrest : pos <:+ rest := hp1.trans hs1
+  have hrest : rest <:+ pre ++ rest := List.suffix_append pre rest
+  obtain ⟨a1, a2, pe, a3, a4, a5, a6⟩ := parseErrorNew_agrees (pre ++ rest) rest pos e.isCut e hposrest hrest hnew
+  -- byte positions
+  have l0 : (encode (pre ++ rest)).length = utf8Len pre + utf8Len rest := by rw [length_encode, utf8Len_append]
+  have l1 := utf8Len_suffix_le hs1
+  have l2 := utf8Len_suffix_le hp1
+  have hstart : utf8Len (pre ++ rest) - utf8Len rest = (encode pre).length := by
+    rw [utf8Len_append, length_encode]; omega
+  have herr : utf8Len (pre ++ rest) - utf8Len pos = (encode (pre ++ rest)).length - (encode pos).length := by
+    rw [length_encode, length_encode]
+  rw [hstart, herr] at a1 a2 a3
+  obtain ⟨pe', stopLine, b1, b2, b3, b4, b5, b6, b7, b8, b9, b10, b11⟩ :=
+    C14_syntax (encode (pre ++ rest)) (encode pre).length ((encode (pre ++ rest)).length - (encode pos).length) a1 a2
+  have hpe : pe' = pe := by rw [a3] at b1; injection b1 with b1; exact b1.symm
+  subst hpe
+  have hoff : pe'.errorSpan.start = e.offset := by rw [a5]
+  have hend : pe'.errorSpan.stop = e.spanEnd := by rw [a5]
+  have hentry : (encode pre).length ≤ (encode (pre ++ rest)).length - (encode entryAt).length ∧
+      (encode (pre ++ rest)).length - (encode entryAt).length ≤ (encode (pre ++ rest)).length - (encode pos).length := by
+    simp only [length_encode, utf8Len_append] at *; omega
+  refine ⟨pre, rest, entryAt, pos, rfl, by rw [length_encode]; exact hres, hsep, hne,
+    hfail.elim (fun x => .inl x.1) (fun x => .inr x.1),
+    (encode pre).length, _, _, rfl, rfl, rfl, hentry.1, hentry.2, a2, ?_, ?_, ?_, ?_, ?_, ?_⟩
+  · -- line_start in bytes
+    have := C14_line (encode (pre ++ rest)) (encode pre).length (by rw [encode_append]; simp)
+    rw [this] at b2; injection b2 with b2; rw [← a4, ← b2]
+  · have := C14_line_chars pre rest
+    rw [this] at b2; injection b2 with b2; rw [← a4, ← b2]
+  · rw [← hoff]; exact b4
+  · rw [← hoff, ← hend]; exact b5
+  · rw [← hend]
+    have : pe'.input.length = (encode (pre ++ rest)).length - (encode pre).length := by rw [b3]; simp
+    omega
+  · have hentryLine : computeLineNumber (encode (pre ++ rest)) ((encode (pre ++ rest)).length - (encode entryAt).length)
+        = .ok (1 + countLF ((encode (pre ++ rest)).take ((encode (pre ++ rest)).length - (encode entryAt).length))) := by
+      simp only [computeLineNumber]; rw [if_pos (by omega)]
+    have hls : pe'.lineStart = 1 + countLF ((encode (pre ++ rest)).take (encode pre).length) := by
+      simp only [computeLineNumber] at b2
+      rw [if_pos (by rw [encode_append]; simp)] at b2
+      injection b2 with b2; exact b2.symm
+    have hstop : stopLine = 1 + countLF ((encode (pre ++ rest)).take ((encode (pre ++ rest)).length - (encode pos).length)) := by
+      simp only [computeLineNumber] at b9
+      rw [if_pos a2] at b9
+      injection b9 with b9; exact b9.symm
+    have m1 := countLF_take_le (encode (pre ++ rest)) _ _ hentry.1
+    have m2 := countLF_take_le (encode (pre ++ rest)) _ _ hentry.2
+    refine ⟨pe', stopLine, _, a3, a4, a5, a6, ?_, ?_, b9, ?_, hentryLine, ?_, ?_⟩
+    · intro hlt
+      obtain ⟨c1, c2, c3⟩ := b7 hlt
+      rw [a6] at c2 c3
+      rw [hoff, hend] at c1
+      rw [hend] at c2
+      exact ⟨c1, c2, fun x hx1 hx2 => c3 x (by rw [hoff]; exact hx1) (by rw [hend]; exact hx2)⟩
+    · intro heq; rw [← hoff, ← hend]; exact b8 heq
+    · rw [← a4, ← a6, ← hoff]; exact b10
+    · rw [← a4, hls]; omega
+    · rw [hstop]; omega
+
+/-- **C14_entry_text.**  For *every* text `t`, every entry `x` that `parse_ledger::<Tracking>` delivers from it (also
+before a later syntax error) and every book-keeping error `e` whose tracked spans are tracked spans of that entry
+(`SpansFrom`: what `book_keeping.rs` does), the hypotheses of `C14_bookkeep` hold for the context
+`ParsedContext { initial: t, span: x.start..x.stop }` — so its conclusions do: the error context is built without panic,
+`line_start` is the line of the entry's first byte, which is one plus the `'\n'` characters in front of the entry;
+every annotation is the tracked span shifted by the entry start, inside the entry text; every annotated line is the
+file's line of that byte, between the entry's first and last line. -/
+theorem C14_entry_text {π : Type} (path : π) (t : List Char) (x : ParseSpans.ParsedT)
+    (hx : x ∈ (ParseSpans.parseLedgerRunT t).1) (e : BkSpans)
+    (he : ∀ r ∈ e.tracked, ∃ s ∈ x.entry.spans, r = s.range (utf8Len t)) :
+    (PCtx.mk (encode t) ⟨x.start, x.stop⟩).validSlice = true ∧
+    (∀ r ∈ e.tracked, r.within ⟨x.start, x.stop⟩) ∧
+    (∃ pre i1, t = pre ++ i1 ∧ x.start = (encode pre).length ∧
+      computeLineNumber (encode t) x.start = .ok (1 + pre.count '\n')) ∧
+    ∃ ctx first last anns,
+      ErrorContext.new path (PCtx.mk (encode t) ⟨x.start, x.stop⟩) = .ok ctx ∧ ctx.path = path ∧
+      computeLineNumber (encode t) x.start = .ok first ∧ ctx.lineStart = first ∧
+      computeLineNumber (encode t) x.stop = .ok last ∧
+      ctx.text.length = x.stop - x.start ∧
+      ctx.annotations e = .ok anns ∧
+      (∀ r ∈ anns, r.start ≤ r.stop ∧ r.stop ≤ ctx.text.length) ∧
+      (e ≠ .other → anns = e.tracked.map fun r => ⟨r.start - x.start, r.stop - x.start⟩) ∧
+      (∀ r ∈ anns, ∀ q, r.start ≤ q → q ≤ r.stop →
+        computeLineNumber (encode t) (x.start + q) = .ok (snippetLine ctx.lineStart ctx.text q) ∧
+        first ≤ snippetLine ctx.lineStart ctx.text q ∧ snippetLine ctx.lineStart ctx.text q ≤ last) := by
+  obtain ⟨_, _, hv, _⟩ := ParseSpans.parseLedgerRunT_tracked t x hx
+  have hin : ∀ r ∈ e.tracked, r.within ⟨x.start, x.stop⟩ := by
+    intro r hr
+    obtain ⟨s, hs, rfl⟩ := he r hr
+    exact ParseSpans.tracked_within t x hx s hs
+  obtain ⟨pre, i1, r, rfl, _, _, hstart, _⟩ := ParseSpans.parseLedgerRunT_delivered t x hx
+  refine ⟨hv, hin, ⟨pre, i1, rfl, hstart, ?_⟩, C14_bookkeep path ⟨encode (pre ++ i1), ⟨x.start, x.stop⟩⟩ e hv hin⟩
+  rw [hstart]; exact C14_line_chars pre i1
+
+/-- **C14_entry_text**, the instances `report::process` can produce: a transaction `tt` delivered by the parser and an
+error whose spans `book_keeping.rs` took from postings of `tt` (`SpansFrom`).  E.g. for `UndeduciblePostingAmount(i, j)`
+the two annotations are exactly the slices of posting `i` and posting `j` inside the entry text. -/
+theorem C14_entry_text_txn {π : Type} (path : π) (t : List Char) (x : ParseSpans.ParsedT)
+    (hx : x ∈ (ParseSpans.parseLedgerRunT t).1) (tt : ParseSpans.TTransaction) (htt : x.entry = .txn tt) (e : BkSpans)
+    (he : ParseSpans.SpansFrom (utf8Len t) tt e) :
+    ∃ ctx anns,
+      ErrorContext.new path (PCtx.mk (encode t) ⟨x.start, x.stop⟩) = .ok ctx ∧
+      computeLineNumber (encode t) x.start = .ok ctx.lineStart ∧
+      ctx.annotations e = .ok anns ∧
+      (e ≠ .other → anns = e.tracked.map fun r => ⟨r.start - x.start, r.stop - x.start⟩) ∧
+      (∀ r ∈ anns, r.start ≤ r.stop ∧ r.stop ≤ ctx.text.length ∧
+        computeLineNumber (encode t) (x.start + r.start) = .ok (snippetLine ctx.lineStart ctx.text r.start)) := by
+  have he' : ∀ r ∈ e.tracked, ∃ s ∈ x.entry.spans, r = s.range (utf8Len t) := by
+    rw [htt]; exact he.mem
+  obtain ⟨_, _, _, ctx, first, last, anns, c1, _, c3, c4, _, _, c7, c8, c9, c10⟩ := C14_entry_text path t x hx e he'
+  refine ⟨ctx, anns, c1, by rw [c4]; exact c3, c7, c9, fun r hr => ?_⟩
+  obtain ⟨d1, d2⟩ := c8 r hr
+  exact ⟨d1, d2, (c10 r hr r.start (Nat.le_refl _) d1).1⟩
+
+/-- the plain decoration delivers the same entry spans, so the error context of every delivered entry — the one
+`report::process` builds for errors without tracked spans — is defined and names the entry's first line -/
+theorem C14_entry_text_plain {π : Type} (path : π) (t : List Char) (x : Parse.Parsed)
+    (hx : x ∈ (Parse.parseLedgerRun t).1) :
+    ∃ ctx anns,
+      ErrorContext.new path (PCtx.mk (encode t) ⟨x.start, x.stop⟩) = .ok ctx ∧
+      computeLineNumber (encode t) x.start = .ok ctx.lineStart ∧
+      ctx.text.length = x.stop - x.start ∧
+      ctx.annotations .other = .ok anns ∧ anns = [⟨0, ctx.text.length⟩] := by
+  have hv := ((Parse.parseLedgerRun_spans t).1 x hx).2.2
+  obtain ⟨ctx, first, last, anns, c1, _, c3, c4, _, c6, c7, _, _, _⟩ :=
+    C14_bookkeep path ⟨encode t, ⟨x.start, x.stop⟩⟩ .other hv (by intro r hr; cases hr)
+  refine ⟨ctx, anns, c1, by rw [c4]; exact c3, c6, c7, ?_⟩
+  simp only [ErrorContext.annotations] at c7
+  injection c7 with c7; exact c7.symm
+
+/-- **C14_file_text.**  `C14_file` with its hypothesis discharged: when every delivered triple comes from the parser —
+its context is the span of an entry `parse_ledger` delivered from the text of that file — the error context of the first
+rejected entry exists, names the path delivered with it and the line of its first byte in that file's text. -/
+theorem C14_file_text {π : Type} (xs : List (Delivered π Entry)) (i : Nat) (x : BkErrS)
+    (hproc : Okane.process (xs.map (·.entry)) = .err (i, x))
+    (hfrom : ∀ d ∈ xs, ∃ t y, y ∈ (Parse.parseLedgerRun t).1 ∧ d.pctx = ⟨encode t, ⟨y.start, y.stop⟩⟩) :
+    ∃ d ctx, xs[i]? = some d ∧ reportAt xs i = .ok (some ctx) ∧
+      ctx.path = d.path ∧
+      computeLineNumber d.pctx.initial d.pctx.span.start = .ok ctx.lineStart ∧
+      d.pctx.asStr = .ok ctx.text ∧ ctx.parsedSpan = d.pctx.span ∧
+      (∃ st', Okane.process ((xs.take i).map (·.entry)) = .ok st' ∧ stepEntry st' d.entry = .err x) := by
+  refine C14_file xs i x hproc fun d hd => ?_
+  obtain ⟨t, y, hy, hc⟩ := hfrom d hd
+  rw [hc]
+  exact ((Parse.parseLedgerRun_spans t).1 y hy).2.2
+
+/-! ### non-vacuity -/
+
+/-- two entries after a comment and blank lines, CRLF and multi-byte text; the second transaction has a posting that
+cannot be parsed (`==`) -/
+def badText : List Char := "; 日本語\r\n\r\n2024/01/01 x\r\n  A  1 USD\r\n  B\r\n\r\n2024/01/02 y\r\n  C  1 USD ==\r\n".toList
+
+-- `C14_syntax_text`'s hypothesis is satisfiable; the error is reported at line 6 (the line after the first transaction,
+-- where the iterator resumed), the bad entry starts on line 7 and the error is on line 8
+example : (Parse.parseLedger badText).isErr = true := by decide +kernel
+example : (match Parse.parseLedger badText with | .err e => some (e.lineStart, e.offset, e.spanEnd) | _ => none)
+    = some (5, 31, 32) := by decide +kernel
+
+/-- a transaction with every kind of tracked item, after a comment -/
+def goodText : List Char := "; é\n\n2024/01/01 x\n  A  1 USD {2 EUR} @ 3 JPY = 4 USD\n  B\n".toList
+
+-- `C14_entry_text`'s hypotheses are satisfiable: the parser delivers the transaction with span 5..56 and seven tracked
+-- spans (account, amount, cost, lot price, balance, posting; account, posting)
+example : (ParseSpans.parseLedgerRunT goodText).1.map (fun x => (x.start, x.stop, x.trackedRanges (utf8Len goodText)))
+    = [(0, 4, []), (5, 56, [(20, 21), (23, 28), (37, 42), (29, 36), (43, 50), (20, 51), (53, 54), (53, 55)])] := by
+  decide +kernel
 
 end Okane.Diag
